@@ -1962,7 +1962,7 @@ def m_remove(ip, recv, args, frame):
     e = recv.find(key_arg(ip, args[0]))
     if e is None:
         return None
-    recv.entries.remove(e)
+    recv.entries = [x for x in recv.entries if x is not e]
     return e[1]
 
 
